@@ -96,10 +96,10 @@ func (e *Engine) intrinsic(st *State, fr *Frame, fn *ssa.Function, args []Value,
 		if cond.IsFalse() {
 			return nil, true
 		}
-		st.assume(cond)
-		if !cond.IsTrue() && !e.feasible(st, c.True, "assume") {
+		if !cond.IsTrue() && !e.feasible(st, cond, "assume") {
 			return nil, true
 		}
+		st.assume(cond)
 		return retExit(st, nil), true
 	case "verifAssert":
 		cond := args[0].(*Term)
